@@ -63,6 +63,8 @@ def query_axioms():
         z3.ForAll([i], z3.Implies(i >= 0, QP(i + 1) == EXT(QP(i), QS(i)))),
         PRE(0) == bytes_val(b""),
         z3.ForAll([i], z3.Implies(i >= 0, PRE(i + 1) == bcat(PRE(i), QS(i)))),
+        # every stem is closed by the separator, hence non-empty (contract of lru_iter)
+        z3.ForAll([i], z3.Implies(z3.And(i >= 0, i < QL), blen(QS(i)) >= 1)),
     ]
 
 
@@ -318,6 +320,8 @@ class Ensure(Contract):
         cs.append(("allocates-only-when-the-stem-is-missing", z3.ForAll([b], z3.Implies(z3.And(w0.head(b), w0.f("parent", b) == g, w0.key(b) == s, z3.Or(g != 0, size0 > 128)), z3.And(size1 == size0, rb == b)))))
         cs.append(("found=>nothing-written", z3.Implies(size1 == size0, z3.And(*[p1.w[k_] == p0.w[k_] for k_ in TKEYS + GHOSTS]))))
         cs.append(("new-blocks-are-the-node-and-its-tails", z3.ForAll([b], z3.Implies(z3.And(w1.head(b), b >= size0), b == size0))))
+        blank = z3.And(w1.f("we", size0) == 0, w1.f("left", size0) == 0, w1.f("right", size0) == 0, w1.f("child", size0) == 0, w1.f("outl", size0) == 0, w1.f("inl", size0) == 0, z3.Not(w1.flag(size0, PAGE)), z3.Not(w1.flag(size0, CRAWLED)), z3.Not(w1.flag(size0, RULE)), w1.flag(size0, NOCHILD))
+        cs.append(("a-created-node-is-blank", z3.Implies(size1 > size0, blank)))
         return cs
 
     def check(self, ex, p0, res, tag):
@@ -469,8 +473,8 @@ def root_like(ex, p, nref, i):
     bz = b.val if isinstance(b, Opt) else to_z3(b)
     fresh_cs = [f for nm, f in is_fresh(ex, p, nref, "node")]
     d = [Wd._coerce(x, srt) for x, srt in zip(node_data(p, nref), Wd.SORTS)]
-    blank = z3.And(z3.Not(exists), i == 0, p.w["T.size"] == 128, to_z3(o.f["tail"]) == bytes_val(b""), d[0] == bytes_val(b""), d[1] == z3.BitVecVal(128, 8), *[d[k] == 0 for k in range(2, 9)])
-    there = z3.And(*(fresh_cs + [w.head(bz), w.lo(bz) == NEG, w.hi(bz) == POS, w.gpath(bz) == QP(i)]))
+    blank = z3.And(to_z3(none), z3.Not(exists), i == 0, p.w["T.size"] == 128, to_z3(o.f["tail"]) == bytes_val(b""), d[0] == bytes_val(b""), d[1] == z3.BitVecVal(128, 8), *[d[k] == 0 for k in range(2, 9)])
+    there = z3.And(*(fresh_cs + [z3.Not(to_z3(none)), w.head(bz), w.lo(bz) == NEG, w.hi(bz) == POS, w.gpath(bz) == QP(i)]))
     return [("node-is-the-root-of-the-sibling-tree-at-level-i(or-missing-in-an-empty-trie)", z3.Or(blank, there))]
 
 
@@ -497,15 +501,20 @@ def add_lru_inv1(ex, p):
     i = to_z3(p.env["i"])
     flag = p.env["flag_can_have_child_webentities"]
     n = p.env["node"]
-    b = node_blk(p, n)
     cs = Inv(p)
-    cs.append(("i-range", z3.And(i >= 1, i <= QL)))
-    cs += is_fresh(ex, p, n, "node")
-    cs.append(("node-is-the-head-spelling-the-first-i-stems", z3.And(w.head(b), w.path(b) == QP(i))))
-    cs.append(("node-has-no-child-yet", z3.Implies(i < QL, w.f("child", b) == 0)))
-    if flag is not False:
-        fl = to_z3(ex.truth(flag, p))
-        cs.append(("flagging:node-unmarked", z3.Implies(z3.And(fl, i < QL), z3.Not(w.flag(b, NOCHILD)))))
+    cs.append(("i-range", z3.If(QL >= 1, z3.And(i >= 1, i <= QL), i == 0)))
+    if p.obj(n).f["block"] is not None:
+        b = node_blk(p, n)
+        g = QL >= 1  # an empty LRU never enters either loop: nothing is claimed about the root
+        cs += [(nm, z3.Implies(g, f)) for nm, f in is_fresh(ex, p, n, "node")]
+        cs.append(("node-is-the-head-spelling-the-first-i-stems", z3.Implies(g, z3.And(w.head(b), w.path(b) == QP(i)))))
+        cs.append(("node-has-no-child-yet", z3.Implies(z3.And(g, i < QL), w.f("child", b) == 0)))
+        if flag is not False:
+            fl = to_z3(ex.truth(flag, p))
+            cs.append(("flagging:node-unmarked", z3.Implies(z3.And(g, fl, i < QL), z3.Not(w.flag(b, NOCHILD)))))
+            cs.append(("flagging:parent-unmarked", z3.Implies(z3.And(g, fl, w.f("parent", b) != 0), z3.Not(w.flag(w.f("parent", b), NOCHILD)))))
+    else:
+        cs.append(("missing-root-only-for-the-empty-lru", QL == 0))
     cs += writer_frame(p, flag)
     return cs
 
@@ -543,6 +552,10 @@ def havoc_add_lru(ex, p):
 def havoc_add_lru1(ex, p):
     havoc_node("node")(ex, p)
     havoc_history(ex, p)
+
+
+def parent_hints(p):
+    return [p.w["T.parent"]] if "T.parent" in p.w else []
 
 
 class AddLru(Contract):
@@ -698,3 +711,122 @@ _install_prev = install
 def install(lib):
     cs = _install_prev(lib)
     return cs + [AddPage()]
+
+
+# ============================================================================ point readers (soundness half)
+def reader_for_inv(ex, p):
+    w = TW(p)
+    i = to_z3(p.env[[k for k in p.env if k.startswith("__i")][0]])
+    cs = [("i-range", z3.And(i >= 0, i <= QL))]
+    n = p.env["node"]
+    rl = root_like(ex, p, n, i)[0][1]
+    # after the last stem the node is the one that matched it
+    if p.obj(n).f["block"] is None:
+        final = z3.BoolVal(False)
+    else:
+        b = node_blk(p, n)
+        none = p.obj(n).f["block"].none if isinstance(p.obj(n).f["block"], Opt) else z3.BoolVal(False)
+        final = z3.And(*([f for nm, f in is_fresh(ex, p, n, "node")] + [z3.Not(to_z3(none)), w.head(b), w.path(b) == QP(QL)]))
+    cs.append(("node-is-the-root-of-the-sibling-tree-at-level-i(or-the-matched-node-after-the-last-stem)", z3.If(i < QL, rl, z3.Or(QL == 0, final))))
+    if "history" in p.env:
+        cs.append(("lru==joined-stems-so-far", to_z3(p.env["lru"]) == PRE(i)))
+    return cs
+
+
+def reader_while_inv(ex, p):
+    w = TW(p)
+    i = to_z3(p.env["i"])
+    n = p.env["node"]
+    o = p.obj(n)
+    s = to_z3(p.env["stem"])
+    b = o.f["block"]
+    none = b.none if isinstance(b, Opt) else z3.BoolVal(b is None)
+    bz = b.val if isinstance(b, Opt) else (to_z3(b) if b is not None else z3.IntVal(0))
+    exists = to_z3(ex.truth(o.f["exists"], p))
+    d = [Wd._coerce(x, srt) for x, srt in zip(node_data(p, n), Wd.SORTS)]
+    # the missing root of an empty trie: default data, nothing to follow
+    blank = z3.And(z3.Not(exists), i == 0, p.w["T.size"] == 128, to_z3(o.f["tail"]) == bytes_val(b""), d[0] == bytes_val(b""), d[1] == z3.BitVecVal(128, 8), *[d[k] == 0 for k in range(2, 9)])
+    if b is None:
+        there = z3.BoolVal(False)
+    else:
+        fresh_cs = [f for nm, f in is_fresh(ex, p, n, "node")]
+        there = z3.And(*(fresh_cs + [z3.Not(to_z3(none)), w.head(bz), w.gpath(bz) == QP(i), w.lo(bz) < ORD(s), ORD(s) < w.hi(bz)]))
+    cs = [
+        ("i-range", z3.And(i >= 0, i < QL)),
+        ("stem-is-the-i-th-stem", s == QS(i)),
+        ("node-is-a-fresh-head-of-the-group-at-level-i-with-the-stem-in-its-interval(or-the-missing-root)", z3.Or(blank, there)),
+    ]
+    if "history" in p.env:
+        cs.append(("lru==joined-stems-so-far", to_z3(p.env["lru"]) == PRE(i + 1)))
+    return cs
+
+
+def havoc_reader(ex, p):
+    havoc_node("node")(ex, p)
+    n = p.env["node"]
+    o = p.obj(n)
+    o.f["exists"] = fresh("node_exists", BOOL)
+    o.f["block"] = Opt(fresh("node_noblock", BOOL), o.f["block"])
+    lst = p.obj(o.f["data"])
+    lst.f["items"] = [fresh("nd_stem", BYTES), fresh("nd_flags", BV8)] + [fresh("nd%d" % k, INT) for k in range(2, 9)]
+    o.f["tail"] = fresh("nd_tail", BYTES)
+    havoc_history(ex, p)
+
+
+def havoc_reader_node(ex, p):
+    havoc_node("node")(ex, p)
+    n = p.env["node"]
+    o = p.obj(n)
+    o.f["exists"] = fresh("node_exists", BOOL)
+    o.f["block"] = Opt(fresh("node_noblock", BOOL), o.f["block"])
+    lst = p.obj(o.f["data"])
+    lst.f["items"] = [fresh("nd_stem", BYTES), fresh("nd_flags", BV8)] + [fresh("nd%d" % k, INT) for k in range(2, 9)]
+    o.f["tail"] = fresh("nd_tail", BYTES)
+
+
+class Reader(Contract):
+    """lru_node / follow_lru, soundness: whenever a node is returned it is a Fresh copy of
+    the head that spells the queried LRU, nothing is raised and nothing is written.
+    (That None is returned only for LRUs that are not stored - completeness - needs the
+    prefix-closure lemma and is left to the bounded stand-in.)"""
+
+    def __init__(self, name):
+        self.qual = "LRUTrie." + name
+        self.name = name
+
+    def setups(self, ex):
+        p, w, store, trie = base()
+        lru = fresh("lru", BYTES)
+        p.assume(lru == PRE(QL))
+        snapshot_old(p)
+        yield p, trie, [lru], {}, "any"
+
+    def check(self, ex, p0, res, tag):
+        for p1, kind, val in res:
+            if kind == "raise":
+                ex.oblige(p1, "raises-nothing(%s)" % val[0], False, val[1])
+                continue
+            node = val[0] if isinstance(val, tuple) else val
+            for k in TKEYS:
+                if not p1.w[k].eq(p0.w[k]):
+                    ex.oblige(p1, "store-unchanged[%s]" % k, p1.w[k] == p0.w[k], None)
+            if node is None:
+                continue
+            if isinstance(node, Opt):
+                raise Unsupported("optional node result")
+            w = TW(p1)
+            rb = node_blk(p1, node)
+            for nm, f in is_fresh(ex, p1, node):
+                ex.oblige(p1, nm, z3.Implies(QL >= 1, f), None)
+            ex.oblige(p1, "result-spells-the-lru", z3.Implies(QL >= 1, z3.And(w.head(rb), w.path(rb) == QP(QL))), None)
+
+
+_install_prev2 = install
+
+
+def install(lib):
+    cs = _install_prev2(lib)
+    for nm in ("lru_node", "follow_lru"):
+        lib.loop_spec("LRUTrie.%s::for#0" % nm, LoopSpec(reader_for_inv, havoc=havoc_reader, locals_=("lru",) if nm == "follow_lru" else ()))
+        lib.loop_spec("LRUTrie.%s::while#0" % nm, LoopSpec(reader_while_inv, havoc=havoc_reader_node))
+    return cs + [Reader("lru_node"), Reader("follow_lru")]
